@@ -8,7 +8,7 @@ CONSTANTS
   TolSet = {"normal"}
   MssKinds = {"default", "below", "tight", "mid", "bse", "huge"}
   IterMaxs = {1, 2, 4}
-  SigKinds = {"default", "wide"}
+  SigKinds = {"default", "wide", "tight"}
   ModeSet = {"SYMM", "HAM"}
   Explore = TRUE
   Emit = FALSE
